@@ -355,14 +355,30 @@ func init() {
 				o := Obligation{Rule: "NEEDS", Key: site.fn + ":" + site.needs, Fn: site.fn, Pos: c.W.Pos(f.Pos()), Nontrivial: true}
 				ok := false
 				sliced := 0
-				for _, s := range bndSitesIn(c, f) {
-					if s.kind == "slice" && isStringType(s.x.Type()) {
-						sliced++
-						if dominatedByCallTo(s.ins, site.needs) {
-							ok = true
-						} else {
-							ok = false
-							break
+				scan := func(g *ssa.Function) {
+					for _, s := range bndSitesIn(c, g) {
+						if s.kind == "slice" && isStringType(s.x.Type()) {
+							sliced++
+							if dominatedByCallTo(s.ins, site.needs) {
+								ok = true
+							} else {
+								ok = false
+								break
+							}
+						}
+					}
+				}
+				scan(f)
+				if sliced == 0 {
+					// the slicing loop was moved into a helper that only this function calls
+					for _, ci := range callsIn(f) {
+						g := ci.Common().StaticCallee()
+						if g == nil || !c.G.InSc[g] || len(g.Blocks) == 0 || shortFn(g) == site.needs {
+							continue
+						}
+						if sites, static := c.staticCallers(g); static && len(sites) == 1 {
+							bndCtx = c
+							scan(g)
 						}
 					}
 				}
